@@ -245,4 +245,29 @@ theorem inv2_movePurge (U : Id → Option Blk) (hU : UOK U) (F : List Id) (db : 
     injection hb with hb
     rw [← hb]; exact hnum
 
+/-- purging without moving the LIB (the LIB announcement of the discovery step) -/
+theorem inv2_purgeSame (U : Id → Option Blk) (F : List Id) (db : DB) (hw : WfEntries db) (hJ : Inv2 U F db) (kept : Nat) :
+    Inv2 U F ((db.moveLIB db.libRef).purgeBeforeLIB kept) := by
+  have hlib : ((db.moveLIB db.libRef).purgeBeforeLIB kept).libRef = db.libRef := rfl
+  refine ⟨?_, by rw [hlib]; exact hJ.libF, by rw [hlib]; exact hJ.finalsBelow, ?_, by rw [hlib]; exact hJ.libAbove,
+    by rw [hlib]; exact hJ.libSelf⟩
+  · intro e he hs
+    have hedb := mem_movePurge db db.libRef kept e he
+    rw [hlib]
+    rcases hJ.anc e hedb hs with ha | ⟨p, hpf, hps⟩ | ⟨hnone, hlow⟩
+    · exact Or.inl ha
+    · by_cases hkeep : db.libRef.num - kept ≤ p.blk.num
+      · exact Or.inr (Or.inl ⟨p, find_movePurge db db.libRef kept _ p hpf hkeep, hps⟩)
+      · right; right
+        refine ⟨find_movePurge_none db hw db.libRef kept _ (fun q hq => by rw [hpf] at hq; injection hq with hq; rw [← hq]; exact hkeep), ?_⟩
+        intro pb hpb
+        have := hJ.inU p (find_mem db _ p hpf)
+        rw [find_id db _ p hpf, hpb] at this
+        injection this with this
+        rw [this]; omega
+    · right; right
+      exact ⟨find_movePurge_none db hw db.libRef kept _ (fun q hq => by rw [hnone] at hq; cases hq), hlow⟩
+  · intro e he
+    exact hJ.inU e (mem_movePurge db db.libRef kept e he)
+
 end BstreamVerif.Forkable
